@@ -36,21 +36,23 @@ func (l *Log) add(op Op) {
 
 // Pipe is a unidirectional byte pipe.
 type Pipe struct {
-	Name     string
-	Cap      int // 0 rendezvous, >0 bounded, <0 unbounded
-	MaxRead  int // if >0, a Read returns at most this many bytes
-	Log      *Log
-	Tap      func(p []byte) // called with every chunk accepted from the writer (under the mutex)
+	Name    string
+	Cap     int // 0 rendezvous, >0 bounded, <0 unbounded
+	MaxRead int // if >0, a Read returns at most this many bytes
+	Log     *Log
+	Tap     func(p []byte)            // called with every chunk accepted from the writer (under the mutex)
+	Yield   func()                    // scheduling perturbation: called at the start of every Read and Write (outside the mutex)
+	Mangle  func(b []byte, off int64) // fault injection: may modify the bytes accepted at stream offset off (gets a private copy)
 
-	mu       sync.Mutex
-	cond     *sync.Cond
-	buf      []byte
-	wclosed  bool
-	rclosed  bool
-	werr     error
-	readers  int // goroutines blocked in Read
-	writers  int // goroutines blocked in Write
-	total    int64
+	mu      sync.Mutex
+	cond    *sync.Cond
+	buf     []byte
+	wclosed bool
+	rclosed bool
+	werr    error
+	readers int // goroutines blocked in Read
+	writers int // goroutines blocked in Write
+	total   int64
 	// rendezvous: bytes offered by a blocked writer
 	pending  []byte
 	progress int64 // changes whenever bytes move
@@ -63,6 +65,9 @@ func NewPipe(name string, capacity int) *Pipe {
 }
 
 func (p *Pipe) Write(b []byte) (int, error) {
+	if p.Yield != nil {
+		p.Yield()
+	}
 	p.mu.Lock()
 	defer p.mu.Unlock()
 	written := 0
@@ -119,6 +124,11 @@ func (p *Pipe) Write(b []byte) (int, error) {
 }
 
 func (p *Pipe) accept(b []byte) {
+	if p.Mangle != nil {
+		c := append([]byte(nil), b...)
+		p.Mangle(c, p.total)
+		b = c
+	}
 	p.buf = append(p.buf, b...)
 	p.total += int64(len(b))
 	p.progress++
@@ -132,6 +142,9 @@ func (p *Pipe) accept(b []byte) {
 func (p *Pipe) Read(b []byte) (int, error) {
 	if len(b) == 0 {
 		return 0, nil
+	}
+	if p.Yield != nil {
+		p.Yield()
 	}
 	p.mu.Lock()
 	defer p.mu.Unlock()
